@@ -201,6 +201,36 @@ def l1_chunk(args):
 LOCUS_TYPES = ("fsm", "ism_amb", "incons", "intergenic")
 
 
+def l2_world_same_chr(assign):
+    """both alignments of the read on ONE chromosome: locus 1 at 1000 (gene GA), locus 2 at 5500 (gene GB or nothing)"""
+    from vlib import worlds as W, syn
+    w = {"chroms": {"chrA": 12000, "chrB": 6000}, "genes": [], "reads": [], "sites": []}
+    w["genes"].append(W.locus_gene("GchrA", "chrA", "+", 1000, {"TchrA1": [0, 1, 2, 3], "TchrA2": [0, 1, 3], "TchrA3": [1, 2, 3]}))
+    w["genes"].append(W.locus_gene("GB2", "chrA", "+", 5500, {"TB21": [0, 1, 2, 3], "TB22": [0, 1, 3], "TB23": [1, 2, 3]}))
+    w["genes"].append(W.locus_gene("GchrB", "chrB", "+", 1000, {"TchrB1": [0, 1, 2]}))
+    syn.plant_for_transcripts(w)
+    blocks = []
+    for (lt, flag), base in zip(assign, (1000, 5500)):
+        if lt == "fsm":
+            b = W.exons(base, [0, 1, 2, 3])
+        elif lt == "ism_amb":
+            b = [[base + 651, base + 800], [base + 1201, base + 1400], [base + 1801, base + 1950]]
+        elif lt == "incons":
+            b = W.exons(base, [0, 2, 3])
+        else:
+            b = W.exons(9000, [0, 1]) if base == 5500 else W.exons(3800, [0, 1])
+        blocks.append(b)
+        W.add_sites_for_blocks(w, "chrA", W.exons(base, [0, 2, 3]), "+")
+    W.add_sites_for_blocks(w, "chrA", W.exons(9000, [0, 1]), "+")
+    W.dedup_sites(w)
+    for k in range(2):
+        w["reads"].append(W.read_of("bgA_%d" % k, "chrA", W.exons(1000, [0, 1, 2, 3])))
+        w["reads"].append(W.read_of("bgB_%d" % k, "chrB", W.exons(1000, [0, 1, 2])))
+    for (lt, flag), b in zip(assign, blocks):
+        w["reads"].append(W.read_of("mm", "chrA", b, polya=False, secondary=(flag == "s")))
+    return w, ["chrA", "chrB"]
+
+
 def l2_world(assign, lengths):
     """assign: list of (locus_type, flag) per chromosome in order chrA, chrB(, chrC); flag 'p' primary / 's' secondary.
        lengths: permutation index deciding which chromosome is longest (processing order)"""
@@ -242,9 +272,10 @@ def l2_case(args):
     results = {}
     errs = []
     nruns = 0
-    for lengths in itertools.permutations(range(n)):
+    same_chr = (tag.startswith("same_"))
+    for lengths in (itertools.permutations(range(n)) if not same_chr else [(0, 1)]):
         for mode in ("default", "high_memory"):
-            w, names = l2_world(assign, lengths)
+            w, names = l2_world(assign, lengths) if not same_chr else l2_world_same_chr(assign)
             d = os.path.join(scratch, "c08_%s_%s_%s" % (tag, "".join(map(str, lengths)), mode))
             shutil.rmtree(d, ignore_errors=True)
             paths = syn.materialise(w, d)
@@ -335,6 +366,14 @@ def run(ctx):
                 continue
             seen.add(key)
             jobs.append(((a, b), ctx.scratch, "%s%s_%s%s" % (a[0], a[1], b[0], b[1])))
+    # both alignments on one chromosome
+    for a in pairs:
+        for b in pairs:
+            if a[0] == "intergenic" and b[0] == "intergenic":
+                continue
+            if quick and not (a[1] == "p" and b[1] == "s"):
+                continue
+            jobs.append(((a, b), ctx.scratch, "same_%s%s_%s%s" % (a[0], a[1], b[0], b[1])))
     if not quick:
         for a, b, c in itertools.combinations_with_replacement([("fsm", "p"), ("fsm", "s"), ("ism_amb", "s"), ("incons", "s"), ("intergenic", "s")], 3):
             jobs.append(((a, b, c), ctx.scratch, "%s%s_%s%s_%s%s" % (a + b + c)))
